@@ -85,6 +85,13 @@ def run(ctx):
         for j in range(33 + (q * 5) % 16): r.update(H.content(rnd, Bb * (1 if j % 7 else (j // 7) % 3), j % 3), padding=False)
         r.update(H.content(rnd, 5 + q, 0), padding=True)
         traces.append(r.trace(dict(kind='many-pieces'))); ctx.mark((name, 'many pieces'))
+    # a large continuation piece (4 KiB and more in one update) after a short one, then the final piece
+    for q, name in enumerate(names if big else ['md5', 'sha1', 'sha256', 'sha512', 'blake256']):
+        Bb = H.blockbytes(name); r = H.Rec(name); r.init()
+        r.update(H.content(rnd, Bb, 0), padding=False)
+        r.update(H.content(rnd, (4096 // Bb + 1 + q) * Bb, 0), padding=False)
+        r.update(H.content(rnd, Bb + 3, 0), padding=True)
+        traces.append(r.trace(dict(kind='large continuation piece'))); ctx.mark((name, 'large piece'))
     # two objects of the same class fed alternately (per-object pad state and counters must not be shared)
     for name in (names if big else ['md5', 'md4', 'sha1', 'sha256', 'sha512', 'blake256']):
         Bb = H.blockbytes(name)
